@@ -77,7 +77,8 @@ HOOK_COMMITS = ["33b7190 verif: add the NANO_VERIF hook header (no-op unless the
                 "be21e41 verif: optional deterministic seed for make_rng() (guarded by NANO_VERIF, add-only)",
                 "d73ded6 verif: optional override of pool_t::max_size() (guarded by NANO_VERIF, add-only)",
                 "b10c141 verif: event kinds for the quasi-Newton update and the L-BFGS direction (guarded by NANO_VERIF, add-only)",
-                "1a2d3c2 verif: quasi-Newton update and L-BFGS direction value events (guarded by NANO_VERIF, add-only)"]
+                "1a2d3c2 verif: quasi-Newton update and L-BFGS direction value events (guarded by NANO_VERIF, add-only)",
+                "5ddf7c9 verif: ellipsoid update value event (guarded by NANO_VERIF, add-only)"]
 
 if __name__ == "__main__":
     main()
